@@ -159,8 +159,22 @@ func handleCompositeLiteral(or *obfRand, isPointer bool, node *ast.CompositeLit,
 
 	byteType := types.Universe.Lookup("byte").Type()
 
+	// The type can be elided when the literal is an element of an outer
+	// composite literal, such as [][]byte{{...}}; use the literal's own type then.
+	var litType types.Type
+	if node.Type != nil {
+		litType = info.TypeOf(node.Type)
+	} else {
+		litType = info.TypeOf(node)
+		// An elided literal whose element type is a pointer stands for &T{...}.
+		if ptr, ok := litType.(*types.Pointer); ok {
+			litType = ptr.Elem()
+			isPointer = true
+		}
+	}
+
 	var arrayLen int64
-	switch y := info.TypeOf(node.Type).(type) {
+	switch y := litType.(type) {
 	case *types.Array:
 		if !types.Identical(y.Elem(), byteType) { // byte and uint8 are the same type
 			return nil
